@@ -14,6 +14,7 @@ import (
 	"os"
 	"os/exec"
 	"path/filepath"
+	"reflect"
 	"regexp"
 	"sort"
 	"strconv"
@@ -40,6 +41,7 @@ type tcase struct {
 	txtBase string  // base name of the template's text file
 
 	outs    []generator.GeneratorOutput // generator output of every version (same options as the handler)
+	gidx    []int                       // index of every version's (output, raw code) record
 	goUpd   []bool                      // the handler's GoUpdated per version
 	codeA   string                      // Go code of version 0
 	codeB   string                      // Go code of the last version (package b)
@@ -226,6 +228,13 @@ func seededChains() []tcase {
 		mk("white space inside a string literal of a condition", "\tif s + \" \" == \"a \" {\n\t\t<i>x</i>\n\t}\n", "\tif s + \"  \" == \"a \" {\n\t\t<i>x</i>\n\t}\n"),
 		mk("white space outside literals of an expression", "\t<p>{ F(\"%s\",s) }</p>\n", "\t<p>{ F(\"%s\",  s) }</p>\n"),
 		mk("text edit only", "\t<p title=\"a\\b\">Hello \"w\" \\ é \x01 \xff</p>\n", "\t<p title=\"c'd\">Bye \\n \"x\"</p>\n"),
+		mk("text edit that moves the expressions to other lines and columns", "\t<p>one</p>{ s }<i title={ t }>x</i>\n", "\t<p>one, and\n\tthen\n\tmuch more text</p>\n\n\t{ s }\n\t<i\n\t\ttitle={ t }\n\t>y</i>\n"),
+		mk("text edit of the first and of the last literal only", "\t<p>a</p>{ s }<p>b</p>{ t }<p>c</p>\n", "\t<p>A\"1\"</p>{ s }<p>b</p>{ t }<p>C\\</p>\n"),
+		mk("text edit inside a for body, a switch case, an else branch and children of a call", "\tfor _, x := range xs {\n\t\t<li>{ x }</li>\n\t}\n\tswitch s {\n\tcase \"a\":\n\t\t<b>is a</b>\n\tdefault:\n\t\t<b>not a</b>\n\t}\n\tif b {\n\t\t<i>yes</i>\n\t} else {\n\t\t<i>no</i>\n\t}\n\t@Wrap() {\n\t\t<u>child { t }</u>\n\t}\n",
+			"\tfor _, x := range xs {\n\t\t<dd>\"{ x }\"</dd>\n\t}\n\tswitch s {\n\tcase \"a\":\n\t\t<em>IS A</em>\n\tdefault:\n\t\t<em>NOT A \\</em>\n\t}\n\tif b {\n\t\t<s>YES</s>\n\t} else {\n\t\t<s>NO</s>\n\t}\n\t@Wrap() {\n\t\t<q>CHILD { t }</q>\n\t}\n"),
+		mk("expression moved into the following for body", "\t{ s }\n\tfor _, x := range xs {\n\t\t<li>{ x }</li>\n\t}\n", "\tfor _, x := range xs {\n\t\t{ s }\n\t\t<li>{ x }</li>\n\t}\n"),
+		mk("expression moved from one switch case to the other", "\tswitch t {\n\tcase \"a\":\n\t\t<b>{ s }</b>\n\tdefault:\n\t\t<b></b>\n\t}\n", "\tswitch t {\n\tcase \"a\":\n\t\t<b></b>\n\tdefault:\n\t\t<b>{ s }</b>\n\t}\n"),
+		mk("expression moved out of the children of a call", "\t@Wrap() {\n\t\t<u>x</u>\n\t\t{ s }\n\t}\n\t<hr/>\n", "\t@Wrap() {\n\t\t<u>x</u>\n\t}\n\t{ s }\n\t<hr/>\n"),
 		mk("two text edits in a row", "\t<p>one</p>{ s }\n", "\t<p>two \"2\"</p>{ s }\n", "\t<p>three \\3</p>{ s }\n"),
 	}
 }
@@ -350,20 +359,50 @@ func generate(src string, opts ...generator.GenerateOpt) (generator.GeneratorOut
 	return out, buf.String(), err
 }
 
-func hcArgs(p, u generator.GeneratorOutput) [][]byte {
+// realSkeleton reads GeneratorOutput.Skeleton (the field commit 75525d5 added) by name, so that the harness still
+// builds - and the property-level judgement still runs - against a tree that does not have it.
+func realSkeleton(o generator.GeneratorOutput) (string, bool) {
+	f := reflect.ValueOf(o).FieldByName("Skeleton")
+	if !f.IsValid() || f.Kind() != reflect.String {
+		return "", false
+	}
+	return f.String(), true
+}
+
+// genRec is one run of the real generator: its output, the code it wrote (not yet formatted) and, once the model
+// has been asked, the skeleton the model computes from that code.
+type genRec struct {
+	out     generator.GeneratorOutput
+	code    string
+	what    string
+	mskel   string // model skel_of_code(code)
+	mskelOK bool   // the model answered (it runs out of stack on lines of 200 kB and more)
+}
+
+func hcArgs(p, u *genRec) [][]byte {
 	b := func(x bool) []byte {
 		if x {
 			return []byte("1")
 		}
 		return []byte("0")
 	}
-	args := [][]byte{
-		[]byte(p.Options.Version), []byte(p.Options.FileName), b(p.Options.SkipCodeGeneratedComment),
-		[]byte(u.Options.Version), []byte(u.Options.FileName), b(u.Options.SkipCodeGeneratedComment),
-		[]byte(strconv.Itoa(len(p.Literals))), []byte(strconv.Itoa(len(p.SourceMap.Expressions))),
-		[]byte(strconv.Itoa(len(u.Literals))), []byte(strconv.Itoa(len(u.SourceMap.Expressions))),
+	// the skeleton the decision is computed from is the MODEL's (computed from the generated text); where the model
+	// had no answer, the generator's own
+	sk := func(g *genRec) []byte {
+		if g.mskelOK {
+			return []byte(g.mskel)
+		}
+		r, _ := realSkeleton(g.out)
+		return []byte(r)
 	}
-	for _, l := range [][]string{p.Literals, p.SourceMap.Expressions, u.Literals, u.SourceMap.Expressions} {
+	args := [][]byte{
+		[]byte(p.out.Options.Version), []byte(p.out.Options.FileName), b(p.out.Options.SkipCodeGeneratedComment),
+		[]byte(u.out.Options.Version), []byte(u.out.Options.FileName), b(u.out.Options.SkipCodeGeneratedComment),
+		[]byte(strconv.Itoa(len(p.out.Literals))), []byte(strconv.Itoa(len(p.out.SourceMap.Expressions))),
+		[]byte(strconv.Itoa(len(u.out.Literals))), []byte(strconv.Itoa(len(u.out.SourceMap.Expressions))),
+		sk(p), sk(u),
+	}
+	for _, l := range [][]string{p.out.Literals, p.out.SourceMap.Expressions, u.out.Literals, u.out.SourceMap.Expressions} {
 		for _, s := range l {
 			args = append(args, []byte(s))
 		}
@@ -550,7 +589,7 @@ func sameRender(a, b string) bool {
 
 type tally struct {
 	first, skelEqual, textOnly, textOnlyChanged, templates, dropped, generated, unformattable int
-	firstOK, skelOK, critOK                               bool
+	firstOK, skelOK, critOK, skelCritOK                   bool
 	perShape                                              map[string]int
 	polled                                                int
 	pollOK                                                bool
@@ -558,7 +597,7 @@ type tally struct {
 
 func experiment(c *core.Ctx) {
 	batches := c.N(1, 10)
-	t := &tally{firstOK: true, skelOK: true, critOK: true, pollOK: true, perShape: map[string]int{}}
+	t := &tally{firstOK: true, skelOK: true, critOK: true, skelCritOK: true, pollOK: true, perShape: map[string]int{}}
 	for bi := 0; bi < batches; bi++ {
 		if !oneBatch(c, t, bi, c.N(70, 250), c.N(230, 900)) {
 			return
@@ -566,7 +605,8 @@ func experiment(c *core.Ctx) {
 	}
 	c.Oblige("correspondence", fmt.Sprintf("rendering: development mode on the template's own text file = normal mode (%d compiled templates, 3 valuations each)", t.templates), t.firstOK, "")
 	c.Oblige("correspondence", fmt.Sprintf("rendering: text-only edit chains whose generated code differs only in literal contents render like a fresh build (%d chains)", t.skelEqual), t.skelOK, "")
-	c.Oblige("correspondence", "rendering: every chain the handler calls text-only satisfies the stated criterion (options, literal count, expression list)", t.critOK, "")
+	c.Oblige("correspondence", "rendering: every chain the handler calls text-only satisfies the comparison of options, literal count and expression list", t.critOK, "")
+	c.Oblige("correspondence", fmt.Sprintf("rendering: every chain the handler calls text-only has the same generated code outside literal contents, by the harness's own comparison of the two files (%d chains; the shapes sink-kind-changed, control-flow-position-changed, literal-expression-order-changed, expression-use-order-changed no longer occur)", t.textOnly), t.skelCritOK, "")
 	c.Oblige("correspondence", fmt.Sprintf("rendering: at most 3%% of the generated cases are rejected by the Go compiler (%d of %d)", t.dropped, t.generated), t.dropped*100 <= 3*t.generated, "")
 	c.Oblige("correspondence", "rendering: the event handler accepts every template the parser accepts", t.unformattable == 0, fmt.Sprint(t.unformattable, " rejected"))
 	c.Oblige("correspondence", fmt.Sprintf("schedule: programs rendering every 2-20 ms from before a text-only edit until 1.25 s after it end up rendering like a fresh build (%d templates)", t.polled), t.pollOK, "")
@@ -643,9 +683,12 @@ func oneBatch(c *core.Ctx, t *tally, bi, nPlain, nChains int) bool {
 
 	cases := buildCases(c, bi == 0, nPlain, nChains)
 	handlerOK, fileOK := true, true
-	var hcReq []drv.Req
-	var hcImpl []bool
-	var hcWhat []string
+	var gens []*genRec
+	type hcPair struct {
+		p, u int
+		what string
+	}
+	var hcPairs []hcPair
 	var lkReq []drv.Req
 	var lkWant, lkSrc []string
 	for _, tc := range cases {
@@ -673,7 +716,7 @@ func oneBatch(c *core.Ctx, t *tally, bi, nPlain, nChains int) bool {
 			if i > 0 {
 				root = rootB
 			}
-			out, _, gerr := generate(src, genOpts(tmp, fa)...)
+			out, rawCode, gerr := generate(src, genOpts(tmp, fa)...)
 			if gerr != nil {
 				tc.ok = false
 				c.Hist("rendering: template rejected by the templ parser")
@@ -704,6 +747,8 @@ func oneBatch(c *core.Ctx, t *tally, bi, nPlain, nChains int) bool {
 				break
 			}
 			tc.outs = append(tc.outs, out)
+			tc.gidx = append(tc.gidx, len(gens))
+			gens = append(gens, &genRec{out: out, code: rawCode, what: abbr(src)})
 			tc.goUpd = append(tc.goUpd, res.GoUpdated)
 			if i == 0 {
 				b, _ := os.ReadFile(ga)
@@ -720,9 +765,7 @@ func oneBatch(c *core.Ctx, t *tally, bi, nPlain, nChains int) bool {
 						c.Fail("tie", "decision: handler GoUpdated = HasChanged(previous, updated)", "", map[string]string{"old": abbr(tc.chain[i-1]), "new": abbr(src)}, fmt.Sprintf("handler %v, HasChanged %v", res.GoUpdated, real))
 					}
 				}
-				hcReq = append(hcReq, drv.Req{Fn: "haschanged", Args: hcArgs(tc.outs[i-1], out)})
-				hcImpl = append(hcImpl, real)
-				hcWhat = append(hcWhat, abbr(tc.chain[i-1])+"\n=====>\n"+abbr(src))
+				hcPairs = append(hcPairs, hcPair{tc.gidx[i-1], tc.gidx[i], abbr(tc.chain[i-1]) + "\n=====>\n" + abbr(src)})
 				c.Count("hc:" + tc.chain[i-1] + "\x00" + src)
 			}
 			// the text file the handler wrote = the model's file of the real literals; every index reads back
@@ -773,50 +816,123 @@ func oneBatch(c *core.Ctx, t *tally, bi, nPlain, nChains int) bool {
 			{generator.WithVersion("v1"), generator.WithFileName("y.templ")},
 			{generator.WithVersion("v1"), generator.WithFileName("x.templ"), generator.WithSkipCodeGeneratedComment()},
 			{generator.WithVersion("v1"), generator.WithFileName("x.templ"), generator.WithTimestamp(time.Unix(1700000000, 0))},
+			{generator.WithVersion("v1"), generator.WithFileName("x.templ"), generator.WithTimestamp(time.Unix(1800000000, 0))},
 			{generator.WithVersion("v1"), generator.WithFileName("/abs/dir/x.templ")},
+			{generator.WithVersion("v1"), generator.WithFileName("odd`, Line: 1, Col: 2}.templ")},
 			{},
 		}
-		var outs []generator.GeneratorOutput
-		for _, o := range optsets {
-			out, _, err := generate(base, o...)
+		first := len(gens)
+		for k, o := range optsets {
+			out, code, err := generate(base, o...)
 			if err == nil {
-				outs = append(outs, out)
+				gens = append(gens, &genRec{out: out, code: code, what: fmt.Sprintf("option set %d", k)})
 			}
 		}
-		for i := range outs {
-			for j := range outs {
-				hcReq = append(hcReq, drv.Req{Fn: "haschanged", Args: hcArgs(outs[i], outs[j])})
-				hcImpl = append(hcImpl, generator.HasChanged(outs[i], outs[j]))
-				hcWhat = append(hcWhat, fmt.Sprintf("option sets %d -> %d", i, j))
-				c.Count(fmt.Sprintf("hc-opt:%d:%d", i, j))
+		// the same option sets on a text-edited template (the date and the positions change together with the text)
+		for k, o := range optsets[:6] {
+			out, code, err := generate("package a\n\ntempl X("+params+") {\n\t<p>more\n\ttext</p>\n\t<p>{ s }</p>\n}\n", o...)
+			if err == nil {
+				gens = append(gens, &genRec{out: out, code: code, what: fmt.Sprintf("option set %d, text edited", k)})
+			}
+		}
+		for i := first; i < len(gens); i++ {
+			for j := first; j < len(gens); j++ {
+				hcPairs = append(hcPairs, hcPair{i, j, gens[i].what + " -> " + gens[j].what})
+				c.Count(fmt.Sprintf("hc-opt:%d:%d", i-first, j-first))
 			}
 		}
 		// unrelated pairs of real outputs
-		var pool []generator.GeneratorOutput
-		for _, tc := range cases {
-			if tc.ok {
-				pool = append(pool, tc.outs...)
-			}
-		}
-		for k := 0; k < c.N(2000, 20000) && len(pool) > 1; k++ {
-			p, u := pool[c.Rng.Intn(len(pool))], pool[c.Rng.Intn(len(pool))]
-			hcReq = append(hcReq, drv.Req{Fn: "haschanged", Args: hcArgs(p, u)})
-			hcImpl = append(hcImpl, generator.HasChanged(p, u))
-			hcWhat = append(hcWhat, "random pair of generated outputs")
+		for k := 0; k < c.N(1200, 12000) && first > 1; k++ {
+			hcPairs = append(hcPairs, hcPair{c.Rng.Intn(first), c.Rng.Intn(first), "random pair of generated outputs"})
 			c.Count("")
 		}
 	}
+
+	// skeleton: model skel_of_code(generated text) = GeneratorOutput.Skeleton byte for byte; the generated file is a
+	// well-formed program of lines (calls numbered 1, 2, ...) whose literals are GeneratorOutput.Literals
+	{
+		reqs := make([]drv.Req, len(gens))
+		for i, g := range gens {
+			reqs[i] = drv.Req{Fn: "skeleton", Args: [][]byte{[]byte(g.code)}}
+		}
+		res := c.Model(reqs)
+		skelOK, wfOK, fieldOK, usedOK := true, true, true, true
+		nStack := 0
+		for i, r := range res {
+			g := gens[i]
+			real, has := realSkeleton(g.out)
+			if !has {
+				fieldOK = false
+			}
+			if len(r) == 1 && string(r[0]) == "!stack" {
+				nStack++
+				continue
+			}
+			if len(r) < 2 {
+				skelOK = false
+				continue
+			}
+			g.mskel, g.mskelOK = string(r[0]), true
+			c.Count("skel:" + g.code)
+			if has && real != g.mskel {
+				skelOK = false
+				if c.NFails("skeleton: model skel_of_code(generated code) = GeneratorOutput.Skeleton") < 3 {
+					c.Fail("tie", "skeleton: model skel_of_code(generated code) = GeneratorOutput.Skeleton", "", map[string]string{"template": g.what, "first_difference": firstDiff(g.mskel, real)}, "the skeleton recorded by the range writer is not the generated code without literal contents, date line and error positions")
+				}
+			}
+			lits := make([]string, 0, len(r)-2)
+			for _, x := range r[2:] {
+				lits = append(lits, string(x))
+			}
+			if string(r[1]) != "1" || strings.Join(lits, "\x00") != strings.Join(g.out.Literals, "\x00") || len(lits) != len(g.out.Literals) {
+				wfOK = false
+				if c.NFails("skeleton: the generated file is a numbered program of lines carrying GeneratorOutput.Literals") < 3 {
+					c.Fail("tie", "skeleton: the generated file is a numbered program of lines carrying GeneratorOutput.Literals", "", map[string]string{"template": g.what, "wf_code": string(r[1]), "literals_in_code": fmt.Sprint(len(lits)), "literals": fmt.Sprint(len(g.out.Literals))}, "WriteString calls are not numbered 1..n in order, or their literals are not the literal list")
+				}
+			}
+			// the real HasChanged must use the field: two outputs that differ in the Skeleton only
+			if has && i == 0 {
+				v := reflect.New(reflect.TypeOf(g.out)).Elem()
+				v.Set(reflect.ValueOf(g.out))
+				v.FieldByName("Skeleton").SetString(real + "x")
+				if !generator.HasChanged(g.out, v.Interface().(generator.GeneratorOutput)) || generator.HasChanged(g.out, g.out) {
+					usedOK = false
+				}
+			}
+		}
+		c.Extra["skeleton_outputs_compared"] = len(gens) - nStack
+		c.Extra["skeleton_outputs_too_long_for_the_extracted_model"] = nStack
+		c.Oblige("correspondence", "skeleton: generator.GeneratorOutput has the string field Skeleton", fieldOK, "")
+		c.Oblige("correspondence", fmt.Sprintf("skeleton: model skel_of_code(generated code) = GeneratorOutput.Skeleton byte for byte (%d generated files, date line and odd file names included)", len(gens)-nStack), skelOK && fieldOK, "")
+		c.Oblige("side-condition", "skeleton: every generated file is a program of lines with calls numbered 1..n carrying GeneratorOutput.Literals (wf_code, hypothesis of C16_code_decision_sound)", wfOK, "")
+		c.Oblige("correspondence", "skeleton: generator.HasChanged answers true for outputs that differ in the Skeleton field only", usedOK && fieldOK, "")
+	}
+
+	hcReq := make([]drv.Req, len(hcPairs))
+	hcImpl := make([]bool, len(hcPairs))
+	hcOld := make([]bool, len(hcPairs))
+	for i, pr := range hcPairs {
+		hcReq[i] = drv.Req{Fn: "haschanged", Args: hcArgs(gens[pr.p], gens[pr.u])}
+		hcImpl[i] = generator.HasChanged(gens[pr.p].out, gens[pr.u].out)
+		hcOld[i] = !hcSpec(gens[pr.p].out, gens[pr.u].out)
+	}
 	res := c.Model(hcReq)
-	hcOK := true
-	hcModel := map[string]bool{}
+	hcOK, oldOK := true, true
+	nStricter := 0
 	for i, r := range res {
-		m := len(r) == 1 && string(r[0]) == "1"
-		hcModel[hcWhat[i]] = m
+		m := len(r) == 2 && string(r[0]) == "1"
+		mOld := len(r) == 2 && string(r[1]) == "1"
 		if m != hcImpl[i] {
 			hcOK = false
 			if c.NFails("decision: model has_changed = generator.HasChanged") < 3 {
-				c.Fail("tie", "decision: model has_changed = generator.HasChanged", "", map[string]string{"pair": hcWhat[i]}, fmt.Sprintf("model %v, HasChanged %v", m, hcImpl[i]))
+				c.Fail("tie", "decision: model has_changed = generator.HasChanged", "", map[string]string{"pair": hcPairs[i].what}, fmt.Sprintf("model %v (criterion of before 75525d5: %v), HasChanged %v", m, mOld, hcImpl[i]))
 			}
+		}
+		if mOld != hcOld[i] {
+			oldOK = false
+		}
+		if m && !mOld {
+			nStricter++
 		}
 		if hcImpl[i] {
 			c.Hist("decision: recompile")
@@ -824,7 +940,9 @@ func oneBatch(c *core.Ctx, t *tally, bi, nPlain, nChains int) bool {
 			c.Hist("decision: text only")
 		}
 	}
-	c.Oblige("correspondence", "decision: model has_changed = generator.HasChanged on every edit step, option perturbation and random pair", hcOK, "")
+	c.Extra[fmt.Sprintf("batch%d_pairs_recompiled_because_of_the_skeleton_only", bi)] = nStricter
+	c.Oblige("correspondence", "decision: model has_changed (old comparisons, then model skeletons of the two generated files) = generator.HasChanged on every edit step, option perturbation and random pair", hcOK, "")
+	c.Oblige("correspondence", "decision: model expr_list_criterion = the comparison of options, literal count and expression list computed by the harness", oldOK, "")
 	c.Oblige("correspondence", "decision: the event handler's GoUpdated is HasChanged(previous output, new output); a new file is GoUpdated", handlerOK, "")
 	c.Oblige("correspondence", "text file: the event handler writes strings.Join(Literals, LF)", fileOK, "")
 
@@ -1000,6 +1118,9 @@ func oneBatch(c *core.Ctx, t *tally, bi, nPlain, nChains int) bool {
 		}
 		if !noRecompile {
 			c.Hist("rendering: chain classified as needing recompilation")
+			if shapeOf(tc.codeA, tc.codeB) == "skeleton-equal" {
+				c.Hist("rendering: chain recompiled at some step although first and last version differ in literal contents only")
+			}
 			continue
 		}
 		t.textOnly++
@@ -1011,6 +1132,11 @@ func oneBatch(c *core.Ctx, t *tally, bi, nPlain, nChains int) bool {
 		}
 		if shape != "skeleton-equal" {
 			t.textOnlyChanged++
+			t.skelCritOK = false
+			if c.NFails("decision: a chain answered text-only has the same generated code outside literal contents") < 3 {
+				c.Fail("tie", "decision: a chain answered text-only has the same generated code outside literal contents", "", map[string]any{"old": abbr(tc.chain[0]), "new": abbr(tc.chain[last]), "edits": tc.kinds, "difference": shape},
+					"no recompilation was requested although the two generated files differ outside the contents of their string literals (harness's own line-by-line comparison)")
+			}
 		} else {
 			t.skelEqual++
 		}
@@ -1066,6 +1192,26 @@ func hcSpec(p, u generator.GeneratorOutput) bool {
 		}
 	}
 	return true
+}
+
+// firstDiff shows where two strings part.
+func firstDiff(a, b string) string {
+	i := 0
+	for i < len(a) && i < len(b) && a[i] == b[i] {
+		i++
+	}
+	lo := i - 60
+	if lo < 0 {
+		lo = 0
+	}
+	cut := func(x string) string {
+		hi := i + 60
+		if hi > len(x) {
+			hi = len(x)
+		}
+		return x[lo:hi]
+	}
+	return fmt.Sprintf("at byte %d: model %q, generator %q", i, cut(a), cut(b))
 }
 
 func lastN(s string, n int) string {
